@@ -14,7 +14,7 @@ LEAN_MODULE = "Ctrmml.Properties.C10"
 THEOREMS = ["C10_unique_data_spec", "C10_seq_bytes_unchanged", "C10_relocation_sound", "C10_song_numbering",
             "C10_unique_string_terminates", "C10_identifiers_unique_valid", "C10_linker_idempotent_query",
             "C10_pcm_region_sound_partial", "C10_offset_window_counterexample",
-            "C10_pcm_histories_partial", "C10_pcm_later_songs_keep_partial"]
+            "C10_pcm_histories_partial", "C10_pcm_later_songs_keep_partial", "C10_reader_agreement", "C10_stored_once"]
 LEVEL = "proof"
 STREAM = "link.out"
 CHUNK = 20
@@ -35,19 +35,28 @@ EXPLANATION = ("theorems over Model/Linker + Spec/Link for all histories; the mo
 ASSUMPTIONS = ["linked banks below 2 GiB (int offset in get_seq_data), MDS files below 4 GiB",
                "\"C\" locale character classes; bytes >= 0x80 in names are dropped (glibc tables)",
                "binary32 rounding of rate/2187.5 never crosses a rounding boundary for integer rates (checked on every boundary rate)",
-               "partial: PCM headers with a non-zero start offset are excluded from pcm_region_sound (known finding D11)"]
+               "partial: PCM headers with a non-zero start offset are excluded from the PCM theorems (known finding D11)",
+               "partial: the history theorems assume at most 65536 sample headers in the wave bank (uint16_t offset = add_sample(..) in add_song)"]
 TRUSTED = ["Spec/Link.lean (MDS reader, bank resolver, group symbol and order, header reader)"]
-TECHNIQUE = "Lean 4 proof (invariants over linker histories, layout lemmas, fuel bound for unique_string) + differential correspondence model<->mdsdrv.cpp + spec resolver on the real output"
+TECHNIQUE = "Lean 4 proof (invariant over linker histories by induction on the operation list, refinement of the chunk walk to the spec reader, layout lemmas, fuel bound for unique_string) + differential correspondence model<->mdsdrv.cpp + spec resolver on the real output"
 LEVEL_TEXT = ("Machine-checked theorems over a Lean model of MDSDRV_Linker: add_unique_data stores identical data once and never merges "
               "different data, earlier indices stay; in the linked bank every song is found through the table at an even offset with its "
               "bytes unchanged outside its pointer slots, every slot holds (flag bit kept) the offset of a bank entry byte-identical to what "
-              "the song carried; songs are numbered from 1 in group-key order then input order and header counts match; unique_string "
+              "the song carried; offsets of non-empty entries are equal iff the bytes are equal, PCM headers are equal iff address, pitch "
+              "code and size are; songs are numbered from 1 in group-key order then input order and header counts match; unique_string "
               "terminates and the generated identifiers are pairwise distinct valid symbols with MIN/MAX bracketing each group; "
-              "get_seq_data is a function of the songs added (queries leave no trace). The PCM-region theorem is partial (start offset 0, "
-              "known finding D11) and rests on C14's allocator invariant.")
+              "get_seq_data is a function of the songs added (queries leave no trace). Over ALL histories of add_song calls on a fresh "
+              "linker (induction over the operation list on top of C14's allocator invariant): every patch entry of every song still "
+              "serves what its file carried for that slot - data entries at the recorded index, PCM headers addressing exactly the "
+              "sample's bytes inside the PCM bank returned, with the rate's pitch code, never crossing a bank boundary; later songs never "
+              "change what earlier entries resolve to. The linker's chunk walk and the spec's own MDS reader are proved to agree on every "
+              "file the spec reader accepts, and add_song is proved to be the fold over exactly those entries. The history theorems are "
+              "partial: PCM start offset 0 (known finding D11) and at most 65536 sample headers (uint16_t index in add_song).")
 LEVEL_NOTE = ("Trusted: Lean kernel; Model/Linker.lean (+ Model/Riff, Model/Wave), tied to mdsdrv.cpp by differential testing only; "
-              "Spec/Link.lean; the converter is not modelled here (its real output is the input). See Properties/C10.lean for the "
-              "exact hypotheses of each theorem.")
+              "Spec/Link.lean; the converter is not modelled here (its real output is the input). Not proved, decided per case by the "
+              "oracle: that the executable resolver (LinkSpec.resolveBank / resolveHeaders: group order of the songs, span and area "
+              "checks, list-level stored-once, header text parsing) accepts the linked output - every ingredient is a theorem, the final "
+              "composition is not (see C10_full_statement in Properties/C10.lean for the exact list).")
 
 EXPECT = {}   # stage-2 request -> 'direct=' answer of stage 1
 
